@@ -14,4 +14,8 @@ for f in $FILES; do
   esac
 done
 echo "merged files:"; echo "$FILES" | sed 's/^/  /'
+# files the branch deleted
+for f in $(git diff --no-renames --name-status $BASE wip-$P | awk '$1=="D"{print $2}' | grep -v -e '^evidence/' -e '^replays/' || true); do
+  [ -e "$f" ] && git rm -q -f "$f" && echo "  removed $f"
+done
 [ -n "$SHARED" ] && echo "SHARED FILES CHANGED ON BRANCH (merge by hand): $SHARED" || true
